@@ -349,7 +349,9 @@ Proof.
     cbn [fst snd]. split; [auto with pw | exact Hrl].
   - destruct (nodes_ok_block _ _ _ _ _ _ Hl) as [He Hb]. cbn [node_pos] in Hx.
     destruct open;
-      try (apply IH; [exact Hrec | exact Hrl | apply Pw_tok_at; [exact Hx | apply Pw_cn_body; [exact Hb | auto with pw]]]).
+      try (apply IH; [exact Hrec | exact Hrl | apply Pw_tok_at; [exact Hx |
+             match goal with |- Pw (if ?b then _ else _) => destruct b end;
+             [apply Pw_rpx_body | apply Pw_cn_body]; [exact Hb | auto with pw | exact Hb | auto with pw]]]).
     cbn [fst snd]. split; [|exact Hrl]. apply Pw_set_stack. apply Pw_tok_at; [exact Hx|].
     destruct contain; [apply Hrec; [exact Hb | exact He | auto with pw] | apply Pw_rpx_body; [exact Hb | auto with pw]].
 Qed.
